@@ -34,7 +34,8 @@ NOT_LEGALITY = ("radius", "Exact Value")
 FLOATS = ["flt", "half", "dec", "third", "big"]
 CLAUSES = ["inDie", "ratio", "area", "attached", "withinExtent", "sideOrder", "intraDisjoint", "interDisjoint",
            "hardCongruent", "fixedInPlace"]
-EXTRA = ["quick_long", "quick_wide", "quick_tall", "quick_xratio"]   # unequal same-side branches; very elongated dies; hard shapes beyond the ratio limit
+# unequal same-side branches; very elongated dies; hard shapes beyond the ratio limit; soft modules drawn above / below their area
+EXTRA = ["quick_long", "quick_wide", "quick_tall", "quick_xratio", "quick_area"]
 UNIVERSES = {"quick": ["quick", "quick_multi"] + EXTRA, "thorough": ["thorough", "thorough_multi", "thorough_r3"] + EXTRA}
 NO_BRANCHES = ("quick_wide", "quick_tall")
 LOC2ROLE = {"TRUNK": "T", "NORTH": "N", "SOUTH": "S", "EAST": "E", "WEST": "W"}
@@ -355,7 +356,7 @@ def random_case(rng: random.Random) -> dict | None:
             rects.append(b)
             roles.append(s)
         tot = sum((r[2] - r[0]) * (r[3] - r[1]) for r in rects)
-        slack = rng.choice([0, 0, 1, 2, 3]) if kind == "soft" else 0
+        slack = rng.choice([0, 0, 1, 2, 3, -1, -2, -3]) if kind == "soft" else 0   # negative: drawn below the declared area
         slack = min(slack, tot - 1)
         net.append({"kind": kind, "area": tot - slack, "slack": slack, "rects": rects, "roles": roles})
         placed += rects
